@@ -717,6 +717,10 @@ class AnalyzeCtx(Ctx):
         self.externals[set] = lambda interp, *a: SymSet.empty(JobK) if not a else (_ for _ in ()).throw(Unsupported("set(x)"))
         self.externals[os.path.join] = lambda interp, *a: ("join",) + a
         self.externals[os.path.normpath] = lambda interp, a: ("normpath", a)
+        # not used by the current code: the crawl walks `root` as given, so a schema path anchored in any other spelling of the root
+        # (absolute, resolved) matches none of the walked paths when the origin is given relatively
+        self.externals[os.path.abspath] = lambda interp, a: ("abspath", a)
+        self.externals[os.path.realpath] = lambda interp, a: ("realpath", a)
 
     def instantiate(self, interp, rc, args, kw):
         if rc.name == "_CopyFromDirectoryExecutor":
